@@ -47,7 +47,9 @@ class timelimit(object):
 
     def __enter__(self):
         self.old = signal.signal(signal.SIGALRM, self._handler)
-        signal.setitimer(signal.ITIMER_REAL, self.seconds)
+        # re-fire every 50 ms after the first expiry: the library has bare 'except:' clauses that
+        # would swallow a single exception and carry on looping
+        signal.setitimer(signal.ITIMER_REAL, self.seconds, 0.05)
         return self
 
     def __exit__(self, *exc):
